@@ -70,6 +70,7 @@ def rule_pairs(chk, prog):
 
 
 _FORM_PROG = None
+_FORM_TIER = ["quick"]
 
 
 def _form_worker(job):
@@ -116,7 +117,7 @@ def _form_worker(job):
         n_pts = 0
         D = "xy"[dim]
         O = "yx"[dim]
-        for _ in range(150):
+        for _ in range(150 if _FORM_TIER[0] != "thorough" else 900):
             env = {}
             for i in (0, 1):
                 x = rng.randint(0, 8)
@@ -201,6 +202,7 @@ def rule_form(chk, prog):
     addc = prog.fn("cola::NonOverlapConstraints::addCluster")
     global _FORM_PROG
     _FORM_PROG = prog
+    _FORM_TIER[0] = chk.tier
     import multiprocessing
     jobs = [(dim, kinds) for dim in (0, 1) for kinds in (("s", "s"), ("s", "c"), ("c", "s"), ("c", "c"))]
     with multiprocessing.get_context("fork").Pool(8) as pool:
